@@ -17,9 +17,9 @@ LEVEL = "exploration"
 
 PLAN = {
     "quick": {"hashseeds": 8, "shards": 2, "generated": 240, "skip": ["1gid.cif.gz"], "cli_all_variants": False,
-              "timeout": 600},
+              "timeout": 600, "light_hashseeds": 16, "light_max_cost": 150_000},
     "thorough": {"hashseeds": 48, "shards": 4, "generated": 4000, "skip": [], "cli_all_variants": True,
-                 "timeout": 3000},
+                 "timeout": 3000, "light_hashseeds": 80, "light_max_cost": 150_000},
 }
 
 ASSUMPTIONS = [
@@ -309,6 +309,20 @@ def check(tier, seed, workers):
     context = {}
     cells, nontrivial, rows_total, failures = explore(items, seeds, plan["shards"], workers, timeout, tmp,
                                                      shuffle_seed=seed, context=context)
+    # more hash seeds on the cheap part of the workload (small files, tools, generated structures): a
+    # container order that only matters for a minority of seeds needs many seeds to be seen
+    light_seeds = [str((seed * 1009 + 1000 + j) % 4294967296) for j in range(plan.get("light_hashseeds", 0))]
+    light_items = [it for it in items if it["cost"] <= plan.get("light_max_cost", 0) or it["type"] != "file"]
+    if light_seeds and light_items and not failures:
+        ctx2 = {}
+        c2, nt2, rows2, failures = explore(light_items, light_seeds, 1, workers, timeout, os.path.join(tmp, "light"),
+                                           shuffle_seed=seed + 1, context=ctx2)
+        for key, m in c2.items():
+            cells.setdefault(key, {}).update(m)
+            nontrivial[key] = nontrivial.get(key, False) or nt2.get(key, False)
+        for (hs, b), c in ctx2.items():
+            context[(hs, "light-%d" % b)] = c
+        rows_total += rows2
     if failures:
         print("HARNESS-ERROR: C14 child interpreters failed: %s" % "; ".join(failures[:4]))
         return 2
@@ -397,8 +411,9 @@ def check(tier, seed, workers):
                 "interpreter twice; all digests of a cell must be equal.",
         "samples": samples,
         "exhaustive": False,
-        "interpreters": len(seeds) * plan["shards"],
+        "interpreters": len(seeds) * plan["shards"] + len(light_seeds),
         "hash_seeds": seeds,
+        "extra_hash_seeds_on_light_items": {"seeds": len(light_seeds), "items": len(light_items)},
         "repetitions_in_process": 2,
         "visiting_order": "every interpreter visits its items in its own seeded order, and in another order the second "
                           "time, so that dependence on what ran before in the process shows up as a digest difference; "
